@@ -1,0 +1,105 @@
+//go:build verif
+
+// Contracts for peer.go and notification_error.go (properties C01 C07 C11 C12 C13).
+package corebgp
+
+//@ func other returns (r)
+//@   ensures [swap] (i == 0 ==> r == 1) && (i != 0 ==> r == 0)
+
+//@ func notificationError.dampPeer returns (r)
+//@   requires n.notification != nil
+//@   ensures [all_but_cease] r == (n.notification.Code != 6)
+
+// startupDelay after a protocol error: 60 s at first, doubling up to 300 s,
+// back to 60 s once 300 s have passed without one (time.Since is arbitrary >= 0:
+// that is the quantifier over elapsed time).
+//@ func peer.updateStartupDelay
+//@   requires [timer] p.startupDelayTimer != nil
+//@   requires [range] p.startupDelay == 0 || (60000000000 <= p.startupDelay && p.startupDelay <= 300000000000)
+//@   ghostvar elapsed int = 0
+//@   at call Since#0 after set elapsed = result
+//@   modifies p.startupDelay, p.lastProtoError, p.startupDelayTimer, timerOn(p.startupDelayTimer), timerMayHold(p.startupDelayTimer)
+//@   ensures [next_delay] p.startupDelay == ((old(p.lastProtoError) != nil && elapsed >= 300000000000) || old(p.startupDelay) == 0 ? 60000000000 : min(2 * old(p.startupDelay), 300000000000))
+//@   ensures [range] 60000000000 <= p.startupDelay && p.startupDelay <= 300000000000
+//@   ensures [timer_armed] p.startupDelayTimer != nil && fresh(p.startupDelayTimer) && timerOn(p.startupDelayTimer) && timerDur(p.startupDelayTimer) == p.startupDelay
+//@   ensures [old_timer_stopped] !timerOn(old(p.startupDelayTimer))
+//@   ensures [last_error_recorded] p.lastProtoError != nil
+
+// ---- FSM life cycle as seen by the peer manager ----
+
+//@ func newFSM returns (f)
+//@   ensures [fresh] f != nil && fresh(f) && f.peer == peer && f.conn == conn && f.closeCh != nil && f.doneCh != nil && f.idleHoldTimer != nil && f.remoteID == 0
+//@   ensures [not_started] !fsmRunning(f) && !chanClosed(f.closeCh) && !chanClosed(f.doneCh) && fresh(f.closeCh) && !onceDone(f.closeOnce)
+
+//@ func fsm.start
+//@   requires [once] !fsmRunning(f)
+//@   at call run#0 set fsmRunning(f) = true
+//@   modifies fsmRunning(f)
+//@   ensures [running] fsmRunning(f)
+
+// stop: request termination and wait for the goroutine (incl. its OnClose).
+//@ func fsm.stop
+//@   requires f.closeCh != nil && f.doneCh != nil && (chanClosed(f.closeCh) == onceDone(f.closeOnce))
+//@   modifies fsmRunning(f), chanClosed(f.closeCh), onceDone(f.closeOnce)
+//@   ensures [joined] !fsmRunning(f)
+//@   ensures [close_requested] chanClosed(f.closeCh)
+
+//@ func peer.disableFSM
+//@   requires [inv] peerInv(p) && (i == 0 || i == 1)
+//@   modifies p.fsms[i], p.fsmState[i], fsmRunning(p.fsms[i]), chanClosed(p.fsms[i].closeCh), onceDone(p.fsms[i].closeOnce)
+//@   ensures [inv] peerInv(p)
+//@   ensures [slot_empty] p.fsms[i] == nil && p.fsmState[i] == 0
+//@   ensures [joined] old(p.fsms[i]) != nil ==> !fsmRunning(old(p.fsms[i]))
+//@   ensures [other_untouched] p.fsms[1-i] == old(p.fsms[1-i]) && p.fsmState[1-i] == old(p.fsmState[1-i]) && (p.fsms[1-i] != nil ==> fsmRunning(p.fsms[1-i]) && !chanClosed(p.fsms[1-i].closeCh))
+
+//@ func peer.sendTransitionToFSM
+//@   requires [inv] peerInv(p) && (i == 0 || i == 1) && p.fsms[i] != nil && t.to <= 6
+//@   requires [one_established] t.to == 6 ==> p.fsmState[1-i] != 6
+//@   ghostvar sent bool = false
+//@   at select#0 case 1 set sent = true
+//@   modifies p.fsmState[i]
+//@   ensures [inv] peerInv(p)
+//@   ensures [state_follows_echo] p.fsmState[i] == (sent ? t.to : old(p.fsmState[i]))
+
+//@ func peer.enableFSM
+//@   requires [inv] peerInv(p) && (i == 0 || i == 1) && !p.inHoldDown
+//@   modifies p.fsms[i], p.fsmState[i]
+//@   ensures [inv] peerInv(p)
+//@   ensures [passive_never_dials] i == 0 && p.options.passive ==> p.fsms[0] == nil
+//@   ensures [started] !(i == 0 && p.options.passive) && old(p.fsms[i]) == nil ==> p.fsms[i] != nil && fresh(p.fsms[i]) && p.fsms[i].conn == conn && fsmRunning(p.fsms[i]) && p.fsmState[i] == 0
+//@   ensures [existing_kept] old(p.fsms[i]) != nil ==> p.fsms[i] == old(p.fsms[i]) && p.fsmState[i] == old(p.fsmState[i])
+//@   ensures [other_untouched] p.fsms[1-i] == old(p.fsms[1-i]) && p.fsmState[1-i] == old(p.fsmState[1-i])
+
+// ---- protocol errors damp the peer (C12) ----
+//@ func peer.handleError
+//@   requires [inv] peerInv(p) && (i == 0 || i == 1)
+//@   requires [well_formed_error] hasType(err, *notificationError) ==> firstOf(err, *notificationError) != nil && firstOf(err, *notificationError).notification != nil
+//@   let damping = hasType(err, *notificationError) && firstOf(err, *notificationError).notification.Code != 6
+//@   modifies p.fsms[0], p.fsms[1], p.fsmState[0], p.fsmState[1], p.startupDelay, p.lastProtoError, p.startupDelayTimer, p.inHoldDown, fsmRunning(p.fsms[0]), fsmRunning(p.fsms[1]), chanClosed(p.fsms[0].closeCh), chanClosed(p.fsms[1].closeCh), onceDone(p.fsms[0].closeOnce), onceDone(p.fsms[1].closeOnce), timerOn(p.startupDelayTimer), timerMayHold(p.startupDelayTimer)
+//@   ensures [inv] peerInv(p)
+//@   ensures [damped_drops_both] damping ==> p.fsms[0] == nil && p.fsms[1] == nil && p.inHoldDown && (old(p.fsms[0]) != nil ==> !fsmRunning(old(p.fsms[0]))) && (old(p.fsms[1]) != nil ==> !fsmRunning(old(p.fsms[1])))
+//@   ensures [damped_timer] damping ==> timerOn(p.startupDelayTimer) && timerDur(p.startupDelayTimer) == p.startupDelay && 60000000000 <= p.startupDelay && p.startupDelay <= 300000000000 && (old(p.startupDelay) == 0 ==> p.startupDelay == 60000000000) && p.startupDelay <= max(2 * old(p.startupDelay), 60000000000)
+//@   ensures [no_damp_otherwise] !damping ==> p.fsms[0] == old(p.fsms[0]) && p.fsms[1] == old(p.fsms[1]) && p.fsmState[0] == old(p.fsmState[0]) && p.fsmState[1] == old(p.fsmState[1]) && p.inHoldDown == old(p.inHoldDown) && p.startupDelay == old(p.startupDelay) && p.startupDelayTimer == old(p.startupDelayTimer) && timerOn(p.startupDelayTimer) == old(timerOn(p.startupDelayTimer))
+
+// ---- state transitions: one Established session (C01), collision (C07), resume dialling (C11) ----
+//@ func peer.handleStateTransition
+//@   requires [inv] peerInv(p) && (i == 0 || i == 1) && p.fsms[i] != nil && t.to <= 6 && t.from <= 6 && (t.to == 5 ==> t.from == 4) && !p.inHoldDown
+//@   let collision = t.to == 5 && old(p.fsmState[1-i]) == 5
+//@   let localDominant = p.id > old(p.fsms[i].remoteID) || (p.id == old(p.fsms[i].remoteID) && p.config.LocalAS > p.config.RemoteAS)
+//@   let requesterWins = localDominant == (i == 0)
+//@   ghostvar killed bool = false
+//@   ghostvar gotOther bool = false
+//@   ghostvar closing bool = false
+//@   at select#0 case 0 set closing = true
+//@   at select#0 case 1 set killed = true
+//@   at select#0 case 2 set gotOther = true
+//@   at call sendTransitionToFSM#0 assert [other_stopped_before_established] p.fsms[1-i] == nil && p.fsmState[1-i] == 0 && (old(p.fsms[1-i]) != nil ==> !fsmRunning(old(p.fsms[1-i])))
+//@   modifies p.fsms[0], p.fsms[1], p.fsmState[0], p.fsmState[1], fsmRunning, chanClosed, onceDone
+//@   ensures [inv] peerInv(p)
+//@   ensures [established_is_exclusive] t.to == 6 ==> p.fsms[1-i] == nil && p.fsmState[1-i] == 0 && (old(p.fsms[1-i]) != nil ==> !fsmRunning(old(p.fsms[1-i]))) && p.fsms[i] == old(p.fsms[i])
+//@   ensures [inbound_down_resumes_dialling] t.to != 6 && i == 1 && t.to < t.from ==> p.fsms[1] == nil && !fsmRunning(old(p.fsms[1])) && (!p.options.passive ==> p.fsms[0] != nil && fsmRunning(p.fsms[0])) && (p.options.passive ==> p.fsms[0] == nil)
+//@   ensures [requester_refused_when_other_established] t.to == 5 && !(i == 1 && t.to < t.from) && old(p.fsmState[1-i]) == 6 ==> p.fsms[i] == nil && p.fsms[1-i] == old(p.fsms[1-i]) && p.fsmState[1-i] == 6
+//@   ensures [collision_loser_requester_closed] collision && !requesterWins ==> p.fsms[i] == nil && !fsmRunning(old(p.fsms[i])) && p.fsms[1-i] == old(p.fsms[1-i]) && p.fsmState[1-i] == 5 && fsmRunning(p.fsms[1-i]) && !chanClosed(p.fsms[1-i].closeCh)
+//@   ensures [collision_winner_requester_kills_other] collision && requesterWins && killed ==> p.fsms[1-i] == nil && !fsmRunning(old(p.fsms[1-i])) && p.fsms[i] == old(p.fsms[i]) && fsmRunning(p.fsms[i]) && !chanClosed(p.fsms[i].closeCh)
+//@   ensures [collision_winner_never_refused_by_manager] collision && requesterWins && !gotOther && !killed && !closing ==> p.fsms[i] == old(p.fsms[i]) && p.fsms[i] != nil
+//@   ensures [collision_closing] collision && requesterWins && closing ==> p.fsms[0] == old(p.fsms[0]) && p.fsms[1] == old(p.fsms[1]) && p.fsmState[0] == old(p.fsmState[0]) && p.fsmState[1] == old(p.fsmState[1])
